@@ -107,6 +107,33 @@ func (s *Sim) mutateConf() *ConfSpec {
 			}
 		}
 	}
+	// directed: a parent with live applications below it is redefined as a leaf
+	if s.post != nil && r.Bool(0.12) {
+		var busy []string
+		for _, path := range sortedKeys(s.post.Queues) {
+			q := c.Find(path)
+			if q == nil || path == "root" || q.IsLeaf() {
+				continue
+			}
+			if par := c.parentOf(path); par == nil || len(par.Children) < 2 {
+				continue
+			}
+			for _, id := range sortedKeys(s.post.Apps) {
+				if a := s.post.Apps[id]; strings.HasPrefix(a.Queue, path+".") && !terminalState(a.State) {
+					busy = append(busy, path)
+					break
+				}
+			}
+		}
+		if len(busy) > 0 {
+			q := c.Find(pick(r, busy))
+			q.Children = nil
+			q.Parent = false
+			s.probe("reload_parent_to_leaf")
+			s.probe("directed_flip_busy_parent")
+			n = r.Range(0, 1)
+		}
+	}
 	for i := 0; i < n; i++ {
 		qs := c.allQueues()
 		path := pick(r, qs)
@@ -482,6 +509,9 @@ func (s *Sim) oracleC16(op Op, evs []SIEvent) {
 			}
 		}
 		s.probe("config_loaded")
+		if lr.accepted && op.Conf != nil {
+			s.checkACLState("after-reload")
+		}
 		if !lr.accepted {
 			// nothing observable changes
 			if d := diffSnap(s.pre, p, true); d != "" {
